@@ -190,6 +190,7 @@ class N:
         self.default = None
         self.presence = False
         self.ordered = False
+        self.ordered_sys = False  # explicit 'ordered-by system' (the default, stated)
         self.minel = self.maxel = None
         self.mandatory = False
         self.grouping = None     # for uses
@@ -310,6 +311,8 @@ def render_node(m, n, ind):
             out += "%s  key %s;\n" % (p, q(" ".join(n.keys)))
         if n.ordered:
             out += "%s  ordered-by user;\n" % p
+    if n.kind in ("list", "leaf-list") and n.ordered_sys and not n.ordered:
+        out += "%s  ordered-by system;\n" % p
     if n.descr:
         out += "%s  description %s;\n" % (p, q(n.descr))
     if n.kind == "container" and n.presence:
@@ -1000,7 +1003,8 @@ class Gen:
             n.maxel = (n.minel or 0) + r.randint(1, 5)
             self.f("max-elements")
         if r.random() < 0.2:
-            n.ordered = False
+            n.ordered_sys = True
+            self.f("leaf-list:ordered-by-system")
         self.f("leaf-list")
         self.f("leaf-list:" + base_kind(n.typ))
         return n
@@ -1261,6 +1265,9 @@ class PlainGen(Gen):
             if r.random() < 0.25:
                 l.ordered = True
                 self.f("list:ordered-by-user")
+            elif r.random() < 0.2:
+                l.ordered_sys = True
+                self.f("list:ordered-by-system")
         if r.random() < 0.15:
             l.minel = r.choice([0, 1])
             self.f("min-elements")
@@ -1747,6 +1754,9 @@ class OCGen(Gen):
         if not ro and r.random() < 0.25:
             l.ordered = True
             self.f("list:ordered-by-user")
+        elif r.random() < 0.2:
+            l.ordered_sys = True
+            self.f("list:ordered-by-system")
         if r.random() < 0.1:
             l.maxel = r.randint(1, 8)
             self.f("max-elements")
